@@ -49,8 +49,30 @@ def mk_ds(graft, dlr, sched, skip):
     n0 = len(ctx.ghost.setdefault('reduce_calls', []))
     upd, _ = S.env["_transform_grad"](S.g, state, S.theta, T.asarray(step))
     norms = [r for r in ctx.ghost['reduce_calls'][n0:] if r.kind == "norm"]
-    n_a, n_d = norms[-2], norms[-1]
     x = D.skolem(ctx, S.dims, "x")
+    y0 = D.skolem(ctx, S.dims, "y0")
+    # identify the code's norm reductions by WHAT they range over (not by position): the gradient (normalized
+    # grafts), the graft step (closed form B.7, identified in C02-P1) and the preconditioned gradient
+    from contracts import c02
+
+    def find(f):
+      for r in norms:
+        if sym.prove(r.x.at(y0) == f(y0)):
+          return r
+      return None
+
+    Ng = None
+    if graft.endswith("NORMALIZED"):
+      n_g = find(lambda i: S.g.at(i))
+      Ng = n_g.value(()) if n_g is not None else None
+    sp = c02.spec_tensors(S, cfg, step, pg, Ng) if (Ng is not None or not graft.endswith("NORMALIZED")) else None
+    n_a = find(sp["a"]) if sp else None
+    n_d = find(sp["d"]) if sp else None
+    if n_a is None or n_d is None:
+      ctx.oblige("_transform_grad(graft).the update is scaled by |graft step| / |preconditioned gradient|: both norms are "
+                 "reductions over those very tensors", False,
+                 detail=f"norm reductions found: {len(norms)}; over the graft step: {n_a is not None}; over the preconditioned gradient: {n_d is not None}")
+      return
     a = n_a.x.at(x)       # the graft step (C02-P1 identifies it with the closed form of the graft type)
     Na, Nd = n_a.value(()), n_d.value(())
     lr_t = S.lr_at(step)
